@@ -1142,6 +1142,10 @@ class Engine:
         h = self.ctx.resolve_call(self, st, f, args, kwargs, node)
         if h is not None:
             return h
+        if isinstance(f, NumFnV):
+            if len(args) != 1 or not isinstance(args[0], ObjV):
+                raise Unsupported('numeric user function applied to %r' % (args,))
+            return [(st, RealV(NUMV(f.t, args[0].t)))]
         if isinstance(f, FnV):
             args, kwargs = self.flatten_args(args, kwargs)
             return self.call_userfn(f, args, kwargs, st)
@@ -1570,7 +1574,7 @@ class Engine:
 
     def bi_callable(self, args, kwargs, st, node):
         (v,) = args
-        return [(st, BoolV(isinstance(v, (FnV, ClosureV, BuiltinV, BoundV, ClassV))))]
+        return [(st, BoolV(isinstance(v, (FnV, NumFnV, ClosureV, BuiltinV, BoundV, ClassV))))]
 
     def bi_range(self, args, kwargs, st, node):
         if len(args) == 1 and isinstance(args[0], IntV):
@@ -1973,6 +1977,11 @@ class Engine:
     def list_method(self, recv, name, args, st, node):
         # find the single name that holds this list
         holder = [n for n, v in st.env.items() if v is recv]
+        fld = [(oid, f) for oid, fs in st.heap.items() for f, v in fs.items() if v is recv]
+        if not holder and len(fld) == 1 and name == 'append' and len(args) == 1 and isinstance(args[0], ObjV):
+            oid, f = fld[0]
+            st.heap[oid][f] = ListV(z3.Concat(recv.seq, z3.Unit(args[0].t)), recv.elemkind)
+            return [(st, NONE)]
         if name == 'append':
             (x,) = args
             if not isinstance(x, ObjV):
@@ -2266,7 +2275,11 @@ class Engine:
         for s, vs in self.eval_list(node.elts, st):
             if any(isinstance(v, tuple) for v in vs):
                 raise Unsupported('starred list display')
-            res.append((s, TupleV(vs, True)))
+            if vs and all(isinstance(v, ObjV) for v in vs):
+                seq = z3.Concat(*[z3.Unit(v.t) for v in vs]) if len(vs) > 1 else z3.Unit(vs[0].t)
+                res.append((s, ListV(seq)))
+            else:
+                res.append((s, TupleV(vs, True)))
         return res
 
     def expr_Dict(self, node, st):
@@ -2372,6 +2385,17 @@ class IntDictV(Val):
 
     def __init__(self, oid):
         self.oid = oid
+
+
+NUMV = z3.Function('NUMV', smt.Fn, smt.Obj, smt.Real)   # value of a number-valued user callable
+
+
+class NumFnV(Val):
+    """A user callable returning a number (len_key): total, deterministic (A-PURE)."""
+    kind = 'numfn'
+
+    def __init__(self, t):
+        self.t = t
 
 
 class EmptyDictV(Val):
